@@ -80,3 +80,12 @@ func VerifDeferState(c Client) (bool, int) {
 	defer db.cacheMutex.RUnlock()
 	return db.deferUpdates, len(db.deferredUpdates)
 }
+
+// VerifMonitorCount reports how many monitors the primary database has registered.
+func VerifMonitorCount(c Client) int {
+	o := c.(*ovsdbClient)
+	db := o.primaryDB()
+	db.monitorsMutex.Lock()
+	defer db.monitorsMutex.Unlock()
+	return len(db.monitors)
+}
